@@ -500,7 +500,7 @@ def check_threshold_optimizer(case):
         # labels in {0,1} may arrive as ints, floats or bools (only in the container run; the reference uses ints)
         ydt = case.get("y_dtype", "int") if kinds[0] != "ndarray" or plans[0] != "default" else "int"
         yo = gen.typed_vector(kinds[0], y, plans[0], name=case["yname"], dtype=ydt)
-        so = gen.wrap_vector(kinds[1], g, plans[1], name="s")
+        so = gen.wrap_vector(kinds[1], g, plans[1], name=case.get("sname", "s"))
         snap = gen.snapshot((X, yo, so))
         to.fit(X, yo, sensitive_features=so)
         if not gen.unchanged(snap, (X, yo, so)):
@@ -711,7 +711,8 @@ def _to_cases(draw):
         "kinds": [draw(gen.vector_kind_pandas_heavy), draw(st.one_of(gen.vector_kind_pandas_heavy, _SF_KINDS))],
         "plans": [draw(gen.index_plan) for _ in range(4)],
         "x_kind": draw(st.sampled_from(["ndarray", "dataframe"])),
-        "yname": draw(st.sampled_from(["lab", "y", "0", "col"])),
+        "yname": draw(st.sampled_from(["lab", "y", "0", "col", "label", "score"])),
+        "sname": draw(st.sampled_from(["s", "score", "label", "sensitive_feature", "score"])),
         "y_dtype": draw(st.sampled_from(gen.LABEL_DTYPES)),
         "predict_kind": draw(st.sampled_from([None, "list", "ndarray", "series", "ndarray_object", "series_object", "dataframe"])),
         "seed": draw(st.integers(0, 1000)),
